@@ -654,5 +654,25 @@ seed("c14-auth-pointer-shared", "C14", "R-opts-pointer-fresh", "conn.go",
 			if err != nil || value == "" {
 				c.writeResponse(500, EnhancedCode{5, 5, 4}, "Malformed AUTH parameter value")""", "opts.Auth points at the range variable")
 
+seed("c13-fill-stops-early", "C13", "R-status-fill", "conn.go",
+"""			default:
+				continue chLoop
+			}""", """			default:
+				break chLoop
+			}""", "only the first recipient channel is filled")
+seed("c10-initstarttls-error-ignored", "C10", "R-ctls-no-downgrade", "client.go",
+"""	if err := c.startTLS(tlsConfig); err != nil {
+		return err
+	}
+	return nil""", """	c.startTLS(tlsConfig)
+	return nil""", "failed upgrade reported as success")
+seed("c17-no-line-split", "C17", "R-reply-format", "conn.go",
+"""	text = strings.Split(strings.Join(text, "\\n"), "\\n")
+""", "", "multi-line message printed as one reply line with embedded LF")
+seed("c04-enh-default-drops-4", "C04", "R-enh-default", "conn.go",
+"""		case 2, 4, 5:
+			enhCode = EnhancedCode{cat, 0, 0}""", """		case 2, 5:
+			enhCode = EnhancedCode{cat, 0, 0}""", "4xx replies without explicit code lose the enhanced code")
+
 json.dump(S, open(os.path.join(os.path.dirname(os.path.abspath(__file__)), "bank.json"), "w"), indent=1)
 print(len(S), "seeds")
